@@ -307,6 +307,10 @@ def ev_mcall(e, env, ctx):
             return sub_size(ctx, "qbase/src/net.rs", "SocketAddr", "encoding_size", r)
         if r.kind == "struct" and r.sname == "EcnCounts":
             return sub_size(ctx, FR + "ack.rs", "EcnCounts", "encoding_size", r, r"impl EcnCounts \{")
+        if r.kind == "resettoken":
+            txt = fn_body(src_of(ctx.g, "qbase/src/token.rs"), r"impl ResetToken \{", r"pub fn encoding_size\(&self\) -> usize \{", "ResetToken::encoding_size")
+            sub = Ctx(ctx.g, ctx.spec, src_of(ctx.g, "qbase/src/token.rs"), "qbase/src/token.rs")
+            return V("nat", par(ev(parse_block(txt), {"self": r}, sub).term))
         raise Outside(f"encoding_size() of a {r.kind}")
     if name == "max_encoding_size" and not args and r.kind == "addr":
         return sub_size(ctx, "qbase/src/net.rs", "SocketAddr", "max_encoding_size", r)
@@ -314,9 +318,17 @@ def ev_mcall(e, env, ctx):
         return V("nat", f"{r.term}.length")
     if name in ("len", "remaining") and not args and r.kind == "data":
         return V("nat", f"{r.term}.length")
+    if name == "encoding_size" and not args and r.kind == "resettoken":
+        txt = fn_body(src_of(ctx.g, "qbase/src/token.rs"), r"impl ResetToken \{", r"pub fn encoding_size\(&self\) -> usize \{", "ResetToken::encoding_size")
+        sub = Ctx(ctx.g, ctx.spec, src_of(ctx.g, "qbase/src/token.rs"), "qbase/src/token.rs")
+        return V("nat", par(ev(parse_block(txt), {"self": r}, sub).term))
+    if name == "as_millis" and not args and r.kind == "duration":
+        return V("nat", r.term)
+    if name == "as_slice" and not args and r.kind == "resettoken":
+        return V("bytes", r.term)
     if name == "into_u64" and r.kind in ("varint", "sid"):
         return V("nat", r.term)
-    if name in ("as_ref", "as_slice", "as_bytes") and not args:
+    if name in ("as_ref", "as_slice", "as_bytes") and not args and r.kind != "resettoken":
         return r
     if name == "is_some" and r.kind == "optecn":
         return V("bool", f"{r.term}.isSome")
@@ -366,7 +378,7 @@ def ev_call(e, env, ctx):
         return V("varint", "0")
     if p == "VarInt::from_u32" and len(args) == 1:
         return V("varint", num(ev(args[0], env, ctx)))
-    if p in ("VarInt::try_from", "VarInt::from_u64") and len(args) == 1:
+    if p in ("VarInt::try_from", "VarInt::from_u64", "VarInt::from_u128") and len(args) == 1:
         return V("res", None, val=V("varint", num(ev(args[0], env, ctx))))
     if p == "VarInt::from" and len(args) == 1:
         a = ev(args[0], env, ctx)
@@ -425,6 +437,10 @@ def put(e, env, ctx, selfname):
         if a.kind != "ftype":
             raise Outside("put_frame_type of a non frame type")
         return [f"encType {par(a.term)}"]
+    if hasattr(ctx, "put_hook"):
+        r = ctx.put_hook(name, [ev(x, env, ctx) for x in args])
+        if r is not None:
+            return r
     if len(args) != 1:
         raise Outside(f"{name} with {len(args)} arguments")
     a = ev(args[0], env, ctx)
